@@ -336,6 +336,10 @@ for sz, N, S in [('e8', 2, 15), ('e3', 3, 8), ('e8', 1, 0), ('e12', 2, 23), ('e8
     add('k1_mem', 'stackn_insufficient_%s_%d_%d' % (sz, N, S), 'stackn_insufficient_h::<%s, %d, %d>()' % (TY[sz], N, S), props=['C11'],
         tier='q' if (sz, S) in {('e8', 15), ('e8', 8), ('e2', 16)} else 't', kind='panic', attrs=['#[kani::should_panic]'],
         allow=[r'StackN<.*> as mem::MemBuilder>::build', r'Insufficient storage'], cost=1, macro='p')
+for nm, call in [('stack_overaligned_za128', 'stack_overaligned_h::<ZA128, 64>(false)'), ('stackn_overaligned_za128', 'stack_overaligned_h::<ZA128, 64>(true)'),
+                 ('stack_overaligned_a128', 'stack_overaligned_h::<A128, 256>(false)'), ('stackn_overaligned_a128', 'stack_overaligned_h::<A128, 256>(true)')]:
+    add('k1_mem', nm, call, props=['C12', 'C11'], tier='q' if 'za128' in nm else 't', kind='panic', attrs=['#[kani::should_panic]'],
+        allow=[r'as mem::MemBuilder>::build', r'Unsupported alignment'], cost=1, macro='p')
 for sz in ['e8', 'z0', 'e3', 'a64', 'e16']:
     add('k1_mem', 'empty_' + sz, 'empty_h::<%s>()' % TY[sz], props=['C12', 'C17', 'C19'], tier='q' if sz in ('e8', 'a64') else 't', cost=1, macro='p')
 add('k1_mem', 'dangling_all', 'dangling_h()', props=['C12'], tier='q', cost=3, macro='p')
